@@ -8,7 +8,7 @@ use std::sync::Arc;
 use std::sync::atomic::AtomicBool;
 use sqlgrep::data_model::Tables;
 use sqlgrep::execution::execution_engine::ExecutionEngine;
-use sqlgrep::executor::{FileExecutor, Printer};
+use sqlgrep::executor::{DisplayOptions, FileExecutor, OutputFormat, Printer};
 use sqlgrep::parsing;
 
 struct Cap { lines: Vec<String> }
@@ -26,6 +26,12 @@ fn unescape(s: &str) -> Vec<u8> {
         } else { out.push(b[i]); i += 1; }
     }
     out
+}
+
+fn display_options() -> DisplayOptions {
+    let mut d = DisplayOptions::default();
+    match std::env::var("FORMAT").as_deref() { Ok("json") => d.output_format = OutputFormat::Json, Ok("csv") => d.output_format = OutputFormat::CSV(";".to_owned()), _ => {} }
+    d
 }
 
 fn main() {
@@ -49,7 +55,7 @@ fn main() {
     assert!(tables.add_tables(parsing::parse(table).expect("table")));
     let statement = parsing::parse(&query).expect("query");
     let r = std::panic::catch_unwind(std::panic::AssertUnwindSafe(|| {
-        let mut ex = FileExecutor::with_output_printer(Arc::new(AtomicBool::new(true)), files, Default::default(), Cap { lines: Vec::new() },
+        let mut ex = FileExecutor::with_output_printer(Arc::new(AtomicBool::new(true)), files, display_options(), Cap { lines: Vec::new() },
                                                        ExecutionEngine::new(&tables, &statement)).unwrap();
         let res = ex.execute();
         (ex.output_printer().printer().lines.clone(), ex.statistics().total_lines, res.map_err(|e| format!("{}", e)))
